@@ -406,9 +406,16 @@ def feedge(index, rep, flow):
     writes = [s for s in walk_no_nested(fn) if isinstance(s, ast.Assign) and any(
         norm_src(e) == f"{name}.kcals" for t in s.targets for e in ([t] if not isinstance(t, ast.Tuple) else t.elts))]
     ok = True
+    from .c03 import bump_slots
+    from .core import bind_args
+    bump_fn, slots = bump_slots(index)
     for s in writes:
         okw = isinstance(s.value, ast.Call) and dotted(s.value.func) == "self.increase_biofuels_then_feed" and isinstance(s.targets[0], ast.Tuple) \
-            and norm_src(s.targets[0].elts[1]) == f"{name}.kcals" and norm_src(s.value.args[1]) == f"{name}.kcals"
+            and len(s.targets[0].elts) == len(slots)
+        if okw:
+            bound = bind_args(s.value, bump_fn)
+            ks = [k_ for k_, e_ in enumerate(s.targets[0].elts) if norm_src(e_) == f"{name}.kcals"]
+            okw = len(ks) == 1 and slots[ks[0]][0] in bound and norm_src(bound[slots[ks[0]][0]]) == f"{name}.kcals"
         ok = ok and okw
     rep.check(ok, rule, "round3:feed only changed by the bump (feed slot in, feed slot out)",
               "the feed charged in round 3 is modified other than by the never-lowering bump", loc=loc(PARAMS, fn))
@@ -441,11 +448,29 @@ def zero(index, rep, flow):
     if len(herd) != 1:
         raise AnalysisError("round 1: herd construction not found")
     af = [k.value for k in herd[0].keywords if k.arg == "available_feed"]
-    zf = [s for s in fn.body if isinstance(s, ast.Assign) and af and norm_src(s.targets[0]) == norm_src(af[0])]
-    ok = len(zf) == 1 and isinstance(zf[0].value, ast.Call) and dotted(zf[0].value.func) == "Food"
+    # what the herd is offered, evaluated (a Food(...) of np.zeros series, however it is built - literal or through a helper)
+    ok = bool(af)
     if ok:
-        kw = {k.arg: norm_src(k.value) for k in zf[0].value.keywords}
-        ok = all(kw.get(l, "").startswith("np.zeros(") for l in ("kcals", "fat", "protein"))
+        it_z = Interp()
+        pcls_z = index.cls(PARAMS, "Parameters")
+        it_z.classes = {"Parameters": pcls_z}
+
+        def hook_z(interp, d, a, kw, node):
+            if d == "Food":
+                return Obj(None, dict(kw), "food")
+            if d in ("np.zeros", "np.zeros_like"):
+                return Rat.const(0)
+            return NotImplemented
+
+        it_z.call_hook = hook_z
+        e_z = Inliner(fn, max_depth=1).expr(af[0])  # the defining expression of the offered feed; its operands stay opaque locals
+        env_z = {n_.id: Path((n_.id,)) for n_ in ast.walk(e_z) if isinstance(n_, ast.Name) and n_.id not in ("np", "Food")}
+        env_z[fn.args.args[0].arg] = Obj(pcls_z, {}, "self")
+        try:
+            v_z = it_z.eval(e_z, env_z)
+            ok = isinstance(v_z, Obj) and v_z.name == "food" and all(isinstance(v_z.attrs.get(l), Rat) and v_z.attrs[l].is_zero() for l in ("kcals", "fat", "protein"))
+        except (Unsupported, Abort):
+            ok = False
     rep.check(ok, rule, "round1:herd-offered-zero-feed", "the round-1 herd is not run on an all-zero feed series", loc=loc(PARAMS, herd[0]))
     st = {str_const(s.targets[0].slice): norm_src(s.value) for s in fn.body if isinstance(s, ast.Assign) and isinstance(s.targets[0], ast.Subscript)
           and norm_src(s.targets[0].value) == "time_consts"}
